@@ -794,3 +794,26 @@ MUTANTS += [
     dict(id="c20-serialise-streams-inside-handler", props=["C20"], file=S + "cli.py",
          old="        result = json.dumps(values, indent=indent)\n", new="        result = \"\"\n        json.dump(values, args.output, indent=indent)\n"),
 ]
+
+
+# ---- round 6: reverts of F22-F24 and mutants for R13.4 / R19.8 / vacuous quantifiers / cached functions
+MUTANTS += [
+    dict(id="c12-revert-float-keeps-fraction", props=["C12"], file=S + "filter_expressions.py",
+         old='        if e and "." not in mantissa:\n            mantissa += ".0"\n',
+         new=''),
+    dict(id="c12-revert-float-out-of-range", props=["C12"], file=S + "parse.py",
+         old='        if number in (float("inf"), float("-inf")):',
+         new='        if False:'),
+    dict(id="c11-revert-anchor-literals", props=["C11"], file=S + "function_extensions/_pattern.py",
+         old='        elif ch in "^$" and not char_class:',
+         new='        elif ch in "" and not char_class:'),
+    dict(id="c11-anchor-dollar-only", props=["C11"], file=S + "function_extensions/_pattern.py",
+         old='        elif ch in "^$" and not char_class:',
+         new='        elif ch == "$" and not char_class:'),
+    dict(id="c13-lexer-zero-progress-cycle", props=["C13"], file=S + "lex.py",
+         old='    if c == ".":\n        if l.peek() == ".":\n            l.next()\n            l.emit(TokenType.DOUBLE_DOT)\n            return lex_descendant_segment\n        return lex_shorthand_selector\n',
+         new='    if c == "." and l.filter_depth and l.peek() == "!":\n        l.backup()\n        return lex_inside_filter\n\n    if c == ".":\n        if l.peek() == ".":\n            l.next()\n            l.emit(TokenType.DOUBLE_DOT)\n            return lex_descendant_segment\n        return lex_shorthand_selector\n'),
+    dict(id="c19-next-advances-at-end", props=["C19"], file=S + "lex.py",
+         old='        except IndexError:\n            return ""\n\n    def ignore(self) -> None:',
+         new='        except IndexError:\n            self.pos += 1\n            return ""\n\n    def ignore(self) -> None:'),
+]
